@@ -673,10 +673,10 @@ func TestC30(t *testing.T) {
 	r.Cases("subsets-n1-7", r.N(154, 2800), func(c *ev.Case) {
 		allSubsets(c, 1+(c.Index+c.Index/16)%7)
 	})
-	r.Cases("subsets-n8-10", r.N(3, 800), func(c *ev.Case) {
+	r.Cases("subsets-n8-10", r.N(3, 320), func(c *ev.Case) {
 		allSubsets(c, 8+(c.Index+c.Index/16)%3)
 	})
-	r.Cases("random-n11-64", r.N(500, 32000), func(c *ev.Case) {
+	r.Cases("random-n11-64", r.N(500, 24000), func(c *ev.Case) {
 		n := c.Rand.Range(11, 64)
 		if c.Rand.Chance(1, 6) {
 			n = []int{15, 16, 17, 31, 32, 33, 63, 64}[c.Rand.Intn(8)]
@@ -868,29 +868,29 @@ func TestC30(t *testing.T) {
 		n     string
 		q, th int64
 	}{
-		{"generated_proof_validates", 5000, 400000},
-		{"roots_equal_reference", 5000, 400000},
-		{"rejected:other-root", 20000, 1500000},
-		{"rejected:foreign-related-replaced", 10000, 1000000},
-		{"rejected:foreign-related-inserted", 10000, 1000000},
-		{"rejected:foreign-related-regenerated", 8000, 500000},
-		{"rejected:hash-bitflip", 20000, 1500000},
-		{"rejected:hash-replaced", 20000, 1500000},
-		{"rejected:hash-swapped", 10000, 700000},
-		{"rejected:flag-0to1", 5000, 300000},
-		{"rejected:flag-0to2", 5000, 300000},
-		{"rejected:flag-1to0", 5000, 300000},
-		{"rejected:flag-1to2", 5000, 300000},
-		{"rejected:flag-2to0", 5000, 300000},
-		{"rejected:flag-2to1", 5000, 300000},
-		{"rejected:flag-2to3", 5000, 300000},
-		{"rejected:hash-dropped", 20000, 1500000},
-		{"rejected:flag-dropped", 20000, 1500000},
-		{"rejected:hash-inserted", 20000, 1500000},
-		{"rejected:flag-inserted", 20000, 1500000},
-		{"crafted:related-foreign:reject", 100, 10000},
-		{"crafted:leaf-as-foreign:reject", 100, 10000},
-		{"crafted:expanded:accept", 100, 10000},
+		{"generated_proof_validates", 5000, 125000},
+		{"roots_equal_reference", 5000, 125000},
+		{"rejected:other-root", 20000, 500000},
+		{"rejected:foreign-related-replaced", 10000, 250000},
+		{"rejected:foreign-related-inserted", 10000, 250000},
+		{"rejected:foreign-related-regenerated", 8000, 200000},
+		{"rejected:hash-bitflip", 20000, 500000},
+		{"rejected:hash-replaced", 20000, 500000},
+		{"rejected:hash-swapped", 10000, 250000},
+		{"rejected:flag-0to1", 5000, 125000},
+		{"rejected:flag-0to2", 5000, 125000},
+		{"rejected:flag-1to0", 5000, 125000},
+		{"rejected:flag-1to2", 5000, 125000},
+		{"rejected:flag-2to0", 5000, 125000},
+		{"rejected:flag-2to1", 5000, 125000},
+		{"rejected:flag-2to3", 5000, 125000},
+		{"rejected:hash-dropped", 20000, 500000},
+		{"rejected:flag-dropped", 20000, 500000},
+		{"rejected:hash-inserted", 20000, 500000},
+		{"rejected:flag-inserted", 20000, 500000},
+		{"crafted:related-foreign:reject", 100, 2500},
+		{"crafted:leaf-as-foreign:reject", 100, 2500},
+		{"crafted:expanded:accept", 100, 2500},
 	} {
 		if r.Thorough() {
 			r.Floor(f.n, f.th)
